@@ -14,7 +14,7 @@ from __future__ import annotations
 import ast
 from typing import List, Set, Tuple
 
-from .core import Module, dotted, origins, site, src, walk_local
+from .core import Module, dotted, facts, origins, site, src, walk_local
 
 
 def cache_sites(module: Module, fn: ast.FunctionDef) -> List[Tuple[ast.AST, ast.expr, str]]:
@@ -37,6 +37,32 @@ def cache_sites(module: Module, fn: ast.FunctionDef) -> List[Tuple[ast.AST, ast.
             out.append((n, n.slice, src(n.value)))
         elif isinstance(n, ast.Call) and isinstance(n.func, ast.Attribute) and n.func.attr in ("setdefault", "get") and is_cache(n.func.value) and n.args:
             out.append((n, n.args[0], src(n.func.value)))
+    return out
+
+
+LOSSY_METHODS = {"split", "strip", "lstrip", "rstrip", "lower", "upper", "casefold", "title", "swapcase", "expandtabs", "splitlines"}
+LOSSY_FUNCS = {"hash", "len", "id", "repr", "abs", "round", "sorted", "set", "frozenset"}
+
+
+def lossy_steps(fn: ast.AST, key: ast.expr) -> List[str]:
+    """Non-injective transformations on the way from the parameters to the memo key (normalisations that merge different inputs)."""
+    from .core import _binding_sources
+
+    binds = _binding_sources(fn)
+    out: List[str] = []
+    seen = set()
+    todo = [key]
+    while todo:
+        e = todo.pop()
+        for n in ast.walk(e):
+            if isinstance(n, ast.Call):
+                if isinstance(n.func, ast.Attribute) and n.func.attr in LOSSY_METHODS:
+                    out.append(src(n)[:50])
+                elif isinstance(n.func, ast.Name) and n.func.id in LOSSY_FUNCS:
+                    out.append(src(n)[:50])
+            if isinstance(n, ast.Name) and n.id not in seen:
+                seen.add(n.id)
+                todo.extend(binds.get(n.id, []))
     return out
 
 
@@ -64,7 +90,14 @@ def check_memo_keys(ctx, rule: str, relpaths, min_sites: int = 1) -> int:
                     flows = origins(fn, key)
                     in_key = {p for p in used if p in flows}
                     # parameters only used to build the key itself do not count as 'read by the computation'
-                    missing = sorted(used - in_key)
+                    # a parameter whose value is fixed by the path condition of this cache site (separate caches per flag) is covered
+                    fixed = {p for p in used for f in facts(node) if p in {x.id for x in ast.walk(ast.parse(f.text, mode="eval")) if isinstance(x, ast.Name)}}
+                    missing = sorted(used - in_key - fixed)
+                    lossy = lossy_steps(fn, key)
+                    ctx.check(not lossy, rule + "-lossy", f"{rel}:{q}", f"{cache}[{src(key)[:40]}] injective", site(node),
+                              f"the memo key is built with the non-injective step(s) {lossy[:3]}: two different arguments that normalise to the same key share one cache entry, "
+                              "and the second one gets the first one's result (e.g. two BNF texts that differ only in whitespace inside a quoted terminal)",
+                              "key is not a normalisation of the argument")
                     ctx.check(not missing, rule, f"{rel}:{q}", f"{cache}[{src(key)[:40]}]", site(node),
                               f"the memo {cache} is keyed by `{src(key)}` but the cached computation also reads the parameter(s) {missing}: a later call with another value of "
                               f"{missing} gets the result computed for the first one (e.g. the same constraint object evaluated under a second grammar)",
